@@ -39,7 +39,7 @@ func (f *FileReaderImpl) CollectPythonFiles(paths []string, recursive bool, incl
 			files = append(files, dirFiles...)
 		} else {
 			// Process single file
-			if f.IsValidPythonFile(path) && f.shouldIncludeFile(path, includePatterns, excludePatterns) {
+			if f.IsValidPythonFile(path) && f.shouldIncludeFile(filepath.Base(path), includePatterns, excludePatterns) {
 				files = append(files, path)
 			}
 		}
@@ -125,7 +125,13 @@ func (f *FileReaderImpl) collectFromDirectory(dirPath string, recursive bool, in
 
 		// Check if it's a Python file
 		if !info.IsDir() && f.IsValidPythonFile(path) {
-			if f.shouldIncludeFile(path, includePatterns, excludePatterns) {
+			// Patterns select files by their location inside the analyzed directory,
+			// whichever way that directory was spelled on the command line
+			relPath, relErr := filepath.Rel(dirPath, path)
+			if relErr != nil {
+				relPath = path
+			}
+			if f.shouldIncludeFile(relPath, includePatterns, excludePatterns) {
 				files = append(files, path)
 			}
 		}
@@ -144,7 +150,7 @@ func (f *FileReaderImpl) collectFromDirectory(dirPath string, recursive bool, in
 func (f *FileReaderImpl) shouldIncludeFile(path string, includePatterns, excludePatterns []string) bool {
 	// Check exclude patterns first
 	for _, pattern := range excludePatterns {
-		if matched, _ := doublestar.Match(pattern, path); matched {
+		if matchesPattern(pattern, path) {
 			return false
 		}
 	}
@@ -156,11 +162,26 @@ func (f *FileReaderImpl) shouldIncludeFile(path string, includePatterns, exclude
 
 	// Check include patterns
 	for _, pattern := range includePatterns {
-		if matched, _ := doublestar.Match(pattern, path); matched {
+		if matchesPattern(pattern, path) {
 			return true
 		}
 	}
 
+	return false
+}
+
+// matchesPattern reports whether a glob pattern selects the file at path.
+// A pattern without a path separator (e.g. "test_*.py") describes a file name
+// and matches it in any directory; other patterns must match the whole path.
+func matchesPattern(pattern, path string) bool {
+	if matched, _ := doublestar.Match(pattern, path); matched {
+		return true
+	}
+	if !strings.Contains(pattern, "/") {
+		if matched, _ := doublestar.Match(pattern, filepath.Base(path)); matched {
+			return true
+		}
+	}
 	return false
 }
 
